@@ -181,3 +181,52 @@ func (s *Store) OpenReaders() string {
 	sort.Strings(l)
 	return strings.Join(l, ",")
 }
+
+// PutWakeupReady reports whether the block list has unsynchronised data (non-blocking).
+func (s *Store) PutWakeupReady() bool {
+	s.Lock.RLock()
+	ch := s.PBL.GetBlockPutWakeup()
+	s.Lock.RUnlock()
+	select {
+	case <-ch:
+		return true
+	default:
+		return false
+	}
+}
+
+// ReleaseWakeupReady reports whether released blocks await a state write (non-blocking).
+func (s *Store) ReleaseWakeupReady() bool {
+	s.Lock.RLock()
+	ch := s.PBL.GetBlockReleaseWakeup()
+	s.Lock.RUnlock()
+	select {
+	case <-ch:
+		return true
+	default:
+		return false
+	}
+}
+
+// StepSyncers runs the syncer loops inline (sequential histories): while work is pending,
+// one ProcessBlockRelease / ProcessBlockPut step each. Timers fire by virtual time advance.
+func (s *Store) StepSyncers(ctx context.Context, max int) int {
+	n := 0
+	for i := 0; i < max; i++ {
+		did := false
+		if s.ReleaseWakeupReady() {
+			s.Syncer.ProcessBlockRelease()
+			did = true
+			n++
+		}
+		if s.PutWakeupReady() {
+			s.Syncer.ProcessBlockPut(ctx)
+			did = true
+			n++
+		}
+		if !did {
+			break
+		}
+	}
+	return n
+}
